@@ -61,8 +61,9 @@ structure Core (st : St) : Prop where
     SUBSCRIBE it is no longer routed; a granted SID is below the counter -/
 def TaskOk (st : St) : Prop :=
   match st.task with
-  | .inflight _ _ cur _ fb _ _ _ granted =>
+  | .inflight _ _ cur svc fb _ _ _ granted =>
       cur ∈ keys st.subs ∧ (fb = true → cur ∉ keys st.routed) ∧ (∀ g, granted = some g → g < st.nextSid)
+      ∧ (fb = false → get? st.routed cur = some svc)
   | _ => True
 
 theorem Core.init (script : List Entry) (dflt : Entry) : Core (init script dflt) :=
@@ -121,7 +122,7 @@ theorem roundStep_core (cfg : Cfg) (hd : cfg.delEarly = false) (rnow : Time) (q 
         refine ⟨?_, fun _ => ?_⟩
         · exact ⟨h.subsNodup, h.routedNodup, h.routedSub,
             fun s hs => Nat.lt_of_lt_of_le (h.subsLt s hs) (send_nextSid_le st .renew svc (some sid))⟩
-        · refine ⟨hmem, by simp, ?_⟩
+        · refine ⟨hmem, by simp, ?_, fun _ => hsome⟩
           intro g hg
           exact send_granted_lt st .renew svc (some sid) (fun s e => by cases e; exact h.subsLt _ hmem) g hg
 
